@@ -330,3 +330,28 @@ Theorem C15_flame_auto_lines : forall total rootname tids s,
      /\ c <> 0).
 Proof. exact flame_auto_lines. Qed.
 Print Assumptions C15_flame_auto_lines.
+
+(* Tasks renamed while they run (perf COMM events: prctl(PR_SET_NAME), pthread_setname_np, exec) put process_name /
+   thread_name metadata events into the middle of traceEvents (dump_chrome_perf_event, escaped since 30262fc).  The
+   document with any such items among the events is valid JSON, whatever bytes the new names consist of ... *)
+Theorem C15_chrome_json_valid_items : forall comms items version date cmdline,
+  (forall tc, In tc comms -> fst tc < BIG) -> Forall item_bounded items ->
+  forallb plain2 version = true -> forallb plain2 date = true ->
+  json_ok (chrome_doc_items true comms items version date cmdline) = true.
+Proof. exact chrome_doc_items_valid. Qed.
+Print Assumptions C15_chrome_json_valid_items.
+
+Theorem C15_chrome_json_valid_stream_items : forall tasks comms s args renames version date cmdline,
+  (forall tp, In tp tasks -> fst tp < BIG /\ snd tp < BIG) -> (forall tc, In tc comms -> fst tc < BIG) ->
+  (forall r, In r s -> fst r < BIG /\ ev_time (snd r) < BIG) -> (forall r, In r renames -> snd (fst r) < BIG) ->
+  forallb plain2 version = true -> forallb plain2 date = true ->
+  json_ok (chrome_doc_items true comms (chrome_items tasks s args renames) version date cmdline) = true.
+Proof. exact chrome_stream_items_valid. Qed.
+Print Assumptions C15_chrome_json_valid_stream_items.
+
+(* ... and was not with the code as found: a task renamed to a-quote-b *)
+Theorem C15_chrome_comm_legacy_refuted :
+  json_ok (chrome_doc_texts true [(100, [112])] [comm_text_legacy 100 [97; 34; 98]] [118] [100] None) = false
+  /\ json_ok (chrome_doc_items true [(100, [112])] [DComm 100 100 [97; 34; 98]] [118] [100] None) = true.
+Proof. exact chrome_comm_legacy_refuted. Qed.
+Print Assumptions C15_chrome_comm_legacy_refuted.
